@@ -167,6 +167,19 @@ def tlc(module, cfg=None, workers=None, env=None, timeout=1500, extra=(), simula
     return r
 
 
+def cfg_variant(cfgname, wd, **consts):
+    """a copy of spec/<cfgname> in the run's work directory with some constants replaced (deeper bounds of the
+    thorough tiers); returns its absolute path (TLC accepts it with -config)"""
+    txt = open(os.path.join(SPEC, cfgname)).read()
+    for k, v in consts.items():
+        txt, n = re.subn(r"(^\s*%s\s*=\s*).*$" % re.escape(k), lambda m: m.group(1) + str(v), txt, flags=re.M)
+        if n != 1:
+            raise Broken("cfg_variant: constant %s not found exactly once in %s" % (k, cfgname))
+    p = os.path.join(wd, "%s-%s" % ("-".join("%s%s" % (k, re.sub(r"[^0-9A-Za-z]", "", str(v))) for k, v in consts.items()), cfgname))
+    open(p, "w").write(txt)
+    return p
+
+
 def tlc_printed_json(res, tag):
     """Extract JSON payloads printed by PrintT(<<tag, ToJson(x)>>)."""
     out = []
